@@ -8,5 +8,5 @@ CONSTANTS
   EditThresholds <- None
 INIT TInit
 NEXT TNext
-INVARIANTS AcceptedIsValid FuncAgrees
+INVARIANTS NoPanic AcceptedIsValid FuncAgrees
 POSTCONDITION Accepted
